@@ -105,9 +105,69 @@ def merger_window(ctx):
     return out
 
 
+def source_limits(ctx):
+    """a per-source cut never uses the user's LIMIT directly: under ORDER BY a source must hand on
+    everything (or LIMIT + OFFSET), because OFFSET is applied once, after the merge"""
+    out = []
+    b = Builder(ctx, "operators-memtable_source-{impl#0}-determine_limit.", "MemTableSource::determine_limit", {})
+    E, q = b.E, ctx.q
+    r = b.mk("B-4", "MemTableSource: the local row limit is None whenever the query is ordered (should_defer_limit), otherwise "
+                    "limit_override (LIMIT + OFFSET) before the plan's LIMIT; and every truncation of the collected rows in "
+                    "MemTableSource::run uses that local limit - never the plan's LIMIT itself")
+    out.append(b.results["B-4"])
+    if not r:
+        return out
+    sd = oblig.events(E, r"QueryContext::should_defer_limit$")
+    oe = [e for e in E.events if re.search(r"Option::<usize>::or_else", e.func)]
+    if not oblig.need_anchor(r, sd, "should_defer_limit") or not E.returns:
+        return out
+    r.nontrivial = True
+    defer = E.sym(sd[0].site, "bool")
+    for (_n, reach, env) in E.returns:
+        d = E.disc_term(env.get(0))
+        v = env.get(0)
+        if d is None:
+            r.status = "inconclusive"
+            r.notes.append("determine_limit's result is not an Option with a known discriminant")
+            return out
+        res, model = q.check(reach, defer, d != 0, domain=E.domain)
+        r.queries += 1
+        if res == z3.sat:
+            r.status = "violated"
+            r.witness = {"what": "determine_limit returns a limit for an ordered query: the source cuts its rows before the merge applied OFFSET",
+                         "span": None, "call": "MemTableSource::determine_limit", "path": [], "model": {}}
+            return out
+    if not oe or "limit_override" not in sym.describe(oe[0].args[0]):
+        r.status = "violated"
+        r.witness = {"what": "the unordered local limit is not `limit_override.or_else(plan LIMIT)`", "span": None,
+                     "call": "MemTableSource::determine_limit", "path": [], "model": {}}
+        return out
+    b2 = Builder(ctx, "operators-memtable_source-{impl#2}-run-{closure#0}.", "MemTableSource::run", {})
+    E2 = b2.E
+    if E2 is None:
+        r.status = "inconclusive"
+        r.notes.append(b2.err)
+        return out
+    tr = [e for e in E2.events if re.search(r"Vec::<.*>::truncate$", e.func)]
+    dl = oblig.events(E2, r"MemTableSource::determine_limit$")
+    if not oblig.need_anchor(r, tr, "rows.truncate in MemTableSource::run") or not oblig.need_anchor(r, dl, "determine_limit call"):
+        return out
+    for e in tr:
+        src = E2.trace(e.args[1], e.env, depth=8) | {sym.describe(e.args[1])} if len(e.args) > 1 else set()
+        if not any("MemTableSource::determine_limit" in x for x in src) or any(re.search(r"QueryPlan::limit", x) for x in src):
+            r.status = "violated"
+            r.witness = {"what": "MemTableSource::run truncates its sorted rows by something other than its local limit "
+                                 f"(derives from {sorted(x for x in src if '::' in x)[:4]}): with ORDER BY ... LIMIT n OFFSET m the rows "
+                                 "m..m+n of the merged order are cut off before the merge",
+                         "span": f"{e.span[0]}:{e.span[1]}" if e.span else None, "call": e.func[:80], "path": [], "model": {}}
+            return out
+    return out
+
+
 def obligations(ctx):
     out = pick(writerspec.accept_row(ctx), [("B-1", "window"), ("B-1b", "dedup")])
     out += merger_window(ctx)
+    out += source_limits(ctx)
     b = Builder(ctx, "handlers-query-handler-{impl#0}-handle-{closure#0}.", "QueryCommandHandler::handle", {})
     E, q = b.E, ctx.q
     r = b.mk("B-2", "QueryCommandHandler::handle: the execution pipeline is built only if the query does not combine an "
